@@ -104,8 +104,8 @@ func Run(r *ev.Run) {
 	}
 	footprint(r)
 	interleavings(r)
-	if r.Thorough() || os.Getenv("VERIF_RACE_PASS") == "1" {
-		racePass(r)
+	if os.Getenv("VERIF_RACE_PASS") != "0" {
+		racePass(r) // supplementary and sampled; reported separately, never counted as exploration
 	}
 }
 
